@@ -174,6 +174,11 @@ let () =
                     (String.concat ";" (List.map (fun h -> hex_of_bytes h.hname ^ ":" ^ hex_of_bytes h.hvalue) r.pr_headers))
                     (String.concat ";" (List.map (fun ((((s, e), z), b), t) -> Printf.sprintf "%s-%s/%s:%s:%s" (string_of_bytes (Model.show_N s)) (string_of_bytes (Model.show_N e)) (string_of_bytes z) (hex_of_bytes b) (hex_of_bytes t)) r.pr_ranges)) dom
        | PErr -> Printf.printf "ERR dom=%d\n" dom | PPanicCL | PPanicIdx -> print_endline "PANIC")
+    | ["rmp"] -> print_endline "OK"
+    | ["rmp"; h] ->
+      (match rmp_parse (bytes_of_hex h) with
+       | POk ps -> print_endline (String.trim ("OK " ^ String.concat ";" (List.map (fun ((((s, e), z), b), t) -> Printf.sprintf "%s-%s/%s:%s:%s" (string_of_bytes (Model.show_N s)) (string_of_bytes (Model.show_N e)) (hex_of_bytes z) (hex_of_bytes b) (hex_of_bytes t)) ps)))
+       | PErr -> print_endline "ERR" | PPanicCL | PPanicIdx -> print_endline "PANIC")
     | ["rp"; h] ->
       (match response_parse (bytes_of_hex h) with
        | POk r -> Printf.printf "OK %s %d %s h=[%s] r=[%s]\n" (hex_of_bytes r.pr_version) (int_of_n r.pr_status) (hex_of_bytes r.pr_reason)
